@@ -523,7 +523,8 @@ class IntronGraph:
 
         known_positions = self.terminal_known_positions[intron] if read_end else self.starting_known_positions[intron]
         while position_dict:
-            best_pair = max(position_dict.items(), key=lambda x:x[1])
+            # equally supported positions: the outer one, whatever order the reads came in
+            best_pair = max(position_dict.items(), key=lambda x: (x[1], x[0] if read_end else -x[0]))
             top_position = best_pair[0]
             nearest_position, diff_to_nearest_position = find_closest(top_position, known_positions)
             if nearest_position and diff_to_nearest_position <= self.params.apa_delta:
